@@ -250,11 +250,19 @@ fn combo(k: usize) -> (usize, usize, usize) { (k / 100, (k / 10) % 10, k % 10) }
 fn equations(kc: usize, ka: usize) -> (Equations, Value) {
     let (ce, cs, cd) = combo(kc);
     let (ae, as_, ad) = combo(ka);
-    let e = Equations {
-        color_equation: EQUATIONS[ce].1,
-        alpha_equation: EQUATIONS[ae].1,
-        color_parameters: Parameters { source: PARAMETERS[cs].1, destination: PARAMETERS[cd].1 },
-        alpha_parameters: Parameters { source: PARAMETERS[as_].1, destination: PARAMETERS[ad].1 },
+    let one = |k: usize| PARAMETERS[k].0 == "One";
+    // through the two constructors where they can express the combination, else field by field
+    let e = if one(cs) && one(cd) && one(as_) && one(ad) {
+        Equations::from_equations(EQUATIONS[ce].1, EQUATIONS[ae].1)
+    } else if EQUATIONS[ce].0 == "Add" && EQUATIONS[ae].0 == "Add" && cs == as_ && cd == ad {
+        Equations::from_parameters(PARAMETERS[cs].1, PARAMETERS[cd].1)
+    } else {
+        Equations {
+            color_equation: EQUATIONS[ce].1,
+            alpha_equation: EQUATIONS[ae].1,
+            color_parameters: Parameters { source: PARAMETERS[cs].1, destination: PARAMETERS[cd].1 },
+            alpha_parameters: Parameters { source: PARAMETERS[as_].1, destination: PARAMETERS[ad].1 },
+        }
     };
     let q = json!({"ceq": EQUATIONS[ce].0, "cps": PARAMETERS[cs].0, "cpd": PARAMETERS[cd].0,
                    "aeq": EQUATIONS[ae].0, "aps": PARAMETERS[as_].0, "apd": PARAMETERS[ad].0});
@@ -432,6 +440,19 @@ where
         for j in 0..p.eqn_inputs {
             let (s, d) = if j < 2 { fixed[(kc + 2 * j) % fixed.len()].clone() } else { rand_pair::<F>(&mut rng, C::N) };
             for form in FORMS { do_eqn::<F, C>(o, kc, ka, form, &s, &d); }
+        }
+    }
+    // the combinations the two constructors express: Equations::from_equations (parameters One) and from_parameters (Add)
+    for ce in 0..5usize {
+        for ae in 0..5usize {
+            let (s, d) = fixed[(ce + ae) % fixed.len()].clone();
+            do_eqn::<F, C>(o, ce * 100, ae * 100, FORMS[1 + (ce + ae) % 2], &s, &d);
+        }
+    }
+    for sp in 0..10usize {
+        for dp in 0..10usize {
+            let (s, d) = fixed[(sp + dp) % fixed.len()].clone();
+            do_eqn::<F, C>(o, sp * 10 + dp, sp * 10 + dp, FORMS[1 + (sp + dp) % 2], &s, &d);
         }
     }
     // the same alpha combination with every colour equation the other way round (alpha combinations enumerated, colour permuted)
